@@ -8,6 +8,7 @@ use vcore::conv::*;
 use vcore::gen;
 use vcore::oracles::*;
 use vcore::runner::{fail, make_part, Good, Part, Verdict};
+use std::sync::Arc;
 use vcore::wire::{render, Region};
 
 fn mem() -> BoxedStrategy<Transport> {
@@ -28,6 +29,49 @@ pub struct SegCase {
     pub multi: Vec<Vec<u16>>,
     /// test every single split point (else: a generated sample)
     pub all_points: bool,
+    /// byte-level edits of the rendered stream (position as a fraction of 65536, kind, byte):
+    /// the property speaks of any byte stream, not only of well-formed ones
+    #[serde(default)]
+    pub edits: Vec<(u16, u8, u8)>,
+}
+
+const EDIT_BYTES: &[u8] = b"\n\r \t:;,=A0\x00\x80\xff\"";
+
+/// applies the edits; kinds: 0 = the next CRLF loses its CR (bare LF), 1 = insert the byte, 2 =
+/// replace by the byte, 3 = delete a byte, 4 = the next CRLF is doubled, 5 = the next CRLF loses its LF
+fn apply_edits(mut b: Vec<u8>, edits: &[(u16, u8, u8)]) -> Vec<u8> {
+    for (f, kind, byte) in edits {
+        if b.len() < 4 {
+            break;
+        }
+        let pos = (*f as usize * b.len()) >> 16;
+        let byte = EDIT_BYTES[*byte as usize % EDIT_BYTES.len()];
+        let next_crlf = (pos..b.len() - 1).find(|i| b[*i] == b'\r' && b[*i + 1] == b'\n');
+        match kind % 6 {
+            0 => {
+                if let Some(i) = next_crlf {
+                    b.remove(i);
+                }
+            }
+            1 => b.insert(pos, byte),
+            2 => b[pos] = byte,
+            3 => {
+                b.remove(pos);
+            }
+            4 => {
+                if let Some(i) = next_crlf {
+                    b.insert(i, b'\n');
+                    b.insert(i, b'\r');
+                }
+            }
+            _ => {
+                if let Some(i) = next_crlf {
+                    b.remove(i + 1);
+                }
+            }
+        }
+    }
+    b
 }
 
 /// conversations of every kind, with programs whose result does not depend on short reads
@@ -74,7 +118,7 @@ fn blank_dates(out: &[u8]) -> Vec<u8> {
 
 #[derive(PartialEq, Debug)]
 struct Proj {
-    delivered: Vec<(Option<u32>, String, String, (u8, u8), Vec<(String, String)>, Option<usize>, Vec<u8>, String, Option<String>)>,
+    delivered: Vec<(Option<u32>, String, String, (u8, u8), Vec<(String, String)>, Option<usize>, Vec<u8>, String, Option<String>, bool)>,
     client: Vec<u8>,
     eof: bool,
     stall: bool,
@@ -86,7 +130,7 @@ fn project(obs: &Observation) -> Proj {
         delivered: obs
             .delivered
             .iter()
-            .map(|d| (d.id, d.method.clone(), d.url.clone(), d.version, d.headers.clone(), d.body_length, d.body.clone(), d.finish.clone(), d.respond_err.clone()))
+            .map(|d| (d.id, d.method.clone(), d.url.clone(), d.version, d.headers.clone(), d.body_length, d.body.clone(), d.finish.clone(), d.respond_err.clone(), d.reads.iter().any(|r| r.res.is_err())))
             .collect(),
         client: blank_dates(&obs.client),
         eof: obs.client_eof,
@@ -102,6 +146,10 @@ fn diff_kind(a: &Proj, b: &Proj) -> (String, String) {
     for (k, (x, y)) in a.delivered.iter().zip(b.delivered.iter()).enumerate() {
         if x.0 != y.0 || x.1 != y.1 || x.2 != y.2 || x.3 != y.3 || x.4 != y.4 {
             return ("request-head".into(), format!("delivery #{} differs: {:?} {:?} vs {:?} {:?}", k, x.1, x.2, y.1, y.2));
+        }
+        if x.5 == y.5 && x.9 && y.9 && (x.6.starts_with(&y.6) || y.6.starts_with(&x.6)) {
+            // both reads of the body ended in an error, after different amounts of it
+            return ("=request-body-prefix-before-read-error".into(), format!("delivery #{}: {} vs {} bytes of the body were readable before the read error", k, x.6.len(), y.6.len()));
         }
         if x.6 != y.6 || x.5 != y.5 {
             let at = x.6.iter().zip(y.6.iter()).position(|(p, q)| p != q).unwrap_or(x.6.len().min(y.6.len()));
@@ -147,18 +195,36 @@ fn split_class(rd: &vcore::wire::Rendered, off: usize) -> &'static str {
 
 pub fn c13_test(sc: &SegCase) -> Verdict {
     let rd = render(&sc.case.conv);
-    let n = rd.bytes.len();
-    let base_obs = run_mem(&sc.case, &MemOpts::default());
+    // an edited stream is sent at once and followed by a half-close (the script's waits refer to
+    // responses that may never come)
+    let edited: Option<(ConvCase, Arc<Vec<u8>>)> = if sc.edits.is_empty() {
+        None
+    } else {
+        let raw = apply_edits(rd.with_nonce(b"00000000"), &sc.edits);
+        let mut c = sc.case.clone();
+        c.script = vec![Step::Send { from: 0, to: raw.len() }, Step::HalfClose];
+        Some((c, Arc::new(raw)))
+    };
+    let (case, raw): (&ConvCase, Option<Arc<Vec<u8>>>) = match &edited {
+        Some((c, r)) => (c, Some(r.clone())),
+        None => (&sc.case, None),
+    };
+    let n = raw.as_ref().map(|r| r.len()).unwrap_or(rd.bytes.len());
+    let base_obs = run_mem(case, &MemOpts { raw: raw.clone(), ..Default::default() });
     let base = project(&base_obs);
     let mut g = Good::trivial();
     let mut runs = 0u64;
     let mut interesting = false;
     let mut check = |opts: &MemOpts, label: &str| -> Option<Verdict> {
-        let o = run_mem(&sc.case, opts);
+        let o = run_mem(case, &MemOpts { raw: raw.clone(), ..opts.clone() });
         let p = project(&o);
         if p != base {
             let (k, d) = diff_kind(&base, &p);
-            return Some(fail(format!("C13/{}/{}", label, k), d));
+            // (a kind starting with '=' names its own class, whatever the split was)
+            if let Some(k) = k.strip_prefix('=') {
+                return Some(fail(format!("C13/{}{}", if edited.is_some() { "edited-stream/" } else { "" }, k), d));
+            }
+            return Some(fail(format!("C13/{}{}/{}", if edited.is_some() { "edited-stream/" } else { "" }, label, k), d));
         }
         None
     };
@@ -166,7 +232,7 @@ pub fn c13_test(sc: &SegCase) -> Verdict {
     let points: Vec<usize> = if sc.all_points || n <= 600 { (1..n).collect() } else { (1..n).step_by((n / 400).max(1)).chain((1..n).filter(|o| o % 1024 <= 1 || o % 1024 == 1023)).collect() };
     for off in points {
         runs += 1;
-        let cls = split_class(&rd, off);
+        let cls = if edited.is_some() { "split-in-edited-stream" } else { split_class(&rd, off) };
         if cls != "split-other" && cls != "split-inside-request-line" && cls != "split-at-header-name" && cls != "split-inside-chunk-data" {
             interesting = true;
         }
@@ -196,6 +262,10 @@ pub fn c13_test(sc: &SegCase) -> Verdict {
     g.extra_evals = runs;
     if interesting {
         g.nontrivial = Some(0);
+    }
+    if edited.is_some() {
+        g.classes.push("edited-stream".into());
+        g.classes.push(format!("edited-stream/delivered={}", base.delivered.len().min(3)));
     }
     g.classes.push(format!("stream-bytes<={}", if n <= 256 { 256 } else if n <= 1024 { 1024 } else if n <= 4096 { 4096 } else { 65536 }));
     Verdict::Pass(g)
@@ -436,7 +506,15 @@ pub fn parts<'a>(cli: &'a Cli) -> Option<(Vec<Part<'a>>, &'static str, Vec<&'sta
                 "mem-splits",
                 "CONV/mem",
                 cli.cases(corpus, corpus),
-                move || (corpus_strategy(max_stream, true), proptest::collection::vec(proptest::collection::vec(any::<u16>(), 2..12), n_multi), proptest::bool::weighted(0.5)).prop_map(|(case, multi, all_points)| SegCase { case, multi, all_points }),
+                move || {
+                    (
+                        corpus_strategy(max_stream, true),
+                        proptest::collection::vec(proptest::collection::vec(any::<u16>(), 2..12), n_multi),
+                        proptest::bool::weighted(0.5),
+                        prop_oneof![3 => Just(vec![]), 2 => proptest::collection::vec((any::<u16>(), prop_oneof![3 => Just(0u8), 1 => 1u8..6], any::<u8>()), 1..4)],
+                    )
+                        .prop_map(|(case, multi, all_points, edits)| SegCase { case, multi, all_points, edits })
+                },
                 |_| (),
                 |_, c| c13_test(c),
             ));
